@@ -116,15 +116,16 @@ class SandboxNativeTracer(SandboxBasicTracer):
         self.returns = {}
         self.call_stack = []
         self.lines = []
-        self.old_tracer = None
+        # A stack: the same tracer is re-entered when student code imports another submission file
+        self.old_tracers = []
         self.step_index = 1
 
     def __enter__(self):
-        self.old_tracer = sys.gettrace()
+        self.old_tracers.append(sys.gettrace())
         sys.settrace(self.tracer)
 
     def __exit__(self, exc_type, exc_val, traceback):
-        sys.settrace(self.old_tracer)
+        sys.settrace(self.old_tracers.pop())
 
     def is_tracked_file(self, frame):
         left = os.path.basename(frame.f_code.co_filename)
@@ -164,6 +165,8 @@ class SandboxCallTracer(SandboxBasicTracer, Bdb):
     def __init__(self):
         super().__init__()
         self.calls = {}
+        # A stack: the same tracer is re-entered when student code imports another submission file
+        self._old_traces = []
 
     def user_call(self, frame, argument_list):
         """
@@ -180,11 +183,11 @@ class SandboxCallTracer(SandboxBasicTracer, Bdb):
 
     def __enter__(self):
         self.reset()
-        self._old_trace = sys.gettrace()
+        self._old_traces.append(sys.gettrace())
         sys.settrace(self.trace_dispatch)
 
     def __exit__(self, exc_type, exc_val, traceback):
-        sys.settrace(self._old_trace)
+        sys.settrace(self._old_traces.pop())
         self.quitting = True
         # Return true to suppress exception (if it is a BdbQuit)
         return isinstance(exc_type, BdbQuit)
